@@ -73,6 +73,7 @@ def run_batch(exe, progs, env=None, wrapper=()):
             r = subprocess.run(list(wrapper) + [exe], input=text, stdout=subprocess.PIPE, stderr=subprocess.PIPE, text=True,
                                timeout=900, env=e, errors="replace")
             rc, out, err = r.returncode, r.stdout, r.stderr
+            err = "\n".join(l for l in err.split("\n") if not l.startswith("#harness-stats"))   # (evidence line, not a report)
         except subprocess.TimeoutExpired:
             rc, out, err = 124, "", "timeout"
         res = {}
